@@ -554,6 +554,66 @@ fn main() {
             }
         }
         res.cov("keepalive_key_change_requests", ka_n);
+        // burst (SAMPLED family: the server-side interleaving is whatever the runtime does): many attributed connections, one
+        // request each, all sent before any response is read, while a key is latched: every one of them arrives signed
+        let nburst = if thorough { 800usize } else { 400 };
+        {
+            w.set_key(Some(K1));
+            let (clabel, rec, hidx, _elev) = &callers[0];
+            let host = w.hosts.all()[*hidx];
+            let hv: Vec<(&str, &[u8])> = vec![("Host", b"metadata"), ("Metadata", b"true")];
+            let sent: Vec<String> = hv.iter().map(|h| h.0.to_lowercase()).collect();
+            let mut conns: Vec<vcommon::rawhttp::Client> = Vec::new();
+            for _ in 0..nburst {
+                let port = next_port();
+                match w.connect(Some(port), Some(rec)) {
+                    Ok(c) => conns.push(c),
+                    Err(e) => vcommon::result::machinery(&format!("burst connect: {e}")),
+                }
+                // the kernel map holds 200 records: never leave more than a few waiting to be picked up
+                let t = std::time::Instant::now();
+                while w.audit_present(port) && t.elapsed() < Duration::from_secs(10) {
+                    std::thread::sleep(Duration::from_micros(200));
+                }
+            }
+            let cur = host.cursor();
+            // the subject's worker threads are kept busy for a moment (as when they are descheduled) while the requests
+            // arrive, so that all of them become ready in one batch
+            for _ in 0..4 {
+                w.rt.spawn(async {
+                    std::thread::sleep(Duration::from_millis(60));
+                });
+            }
+            std::thread::sleep(Duration::from_millis(5));
+            for (i, cl) in conns.iter_mut().enumerate() {
+                let _ = cl.send(&build_request("GET", &format!("/burst?i={i}"), &hv, None, None));
+            }
+            let mut answered = 0usize;
+            for cl in conns.iter_mut() {
+                if cl.read_response(false, Duration::from_secs(20)).map(|m| m.status()) == Ok(200) {
+                    answered += 1;
+                }
+            }
+            for cl in conns {
+                cl.close();
+            }
+            let at_host: Vec<Msg> = host.requests_since(cur).into_iter().map(|(_, m)| m).filter(|m| m.target().starts_with("/burst")).collect();
+            evals += nburst as u64;
+            let (mut unsigned, mut bad) = (0usize, 0usize);
+            for m in &at_host {
+                match hostcheck::verify_signature(m, &keys, &sent) {
+                    SigVerdict::Valid { .. } => sig_valid += 1,
+                    SigVerdict::Unsigned => unsigned += 1,
+                    SigVerdict::Bad(_) => bad += 1,
+                }
+            }
+            let case = json!({"family": "burst-while-key-latched", "caller": clabel, "connections": nburst});
+            nontrivial.insert(case.to_string());
+            if unsigned > 0 || bad > 0 || at_host.len() != nburst {
+                res.violation("proxied:unsigned-while-key-latched:burst", &format!("{nburst} concurrent requests while a key is latched: {answered} answered 200, {} reached the host, {unsigned} of them without authorization header, {bad} with an invalid one", at_host.len()), case);
+            }
+        }
+        res.cov("burst_requests_sampled", nburst as u64);
         // exempt uploads: relayed unchanged, no signature demanded; while no key: nothing signed
         w.set_key(Some(K1));
         for (m, t, exempt) in [("PUT", "/vmAgentLog", true), ("POST", "/machine/?comp=telemetrydata", true), ("PUT", "/VMAGENTLOG", true), ("PUT", "/vmAgentLog?x=1", false), ("POST", "/vmAgentLog", false), ("PUT", "/machine/?comp=telemetrydata", false)] {
